@@ -137,7 +137,7 @@ class TLCResult:
 
 
 def run_tlc(work, module, cfgfile, sink=None, workers=1, timeout=1800, heap="4g", simulate=None, extra_args=(),
-            java_props=()):
+            java_props=(), env=None):
     """Run TLC.  Lines that are emitted tours (start with '"[') are written to
     sink (a binary file object, e.g. the harness's stdin); everything else is
     kept as the log.  Returns a TLCResult."""
@@ -151,7 +151,7 @@ def run_tlc(work, module, cfgfile, sink=None, workers=1, timeout=1800, heap="4g"
     cmd += list(extra_args)
     cmd.append(module)
     t0 = time.time()
-    p = subprocess.Popen(cmd, cwd=work.dir, stdout=subprocess.PIPE, stderr=subprocess.STDOUT, bufsize=1 << 20)
+    p = subprocess.Popen(cmd, cwd=work.dir, stdout=subprocess.PIPE, stderr=subprocess.STDOUT, bufsize=1 << 20, env=env)
     try:
         for raw in p.stdout:
             if raw.startswith(b'"[') or raw.startswith(b'"{'):
@@ -674,14 +674,56 @@ def split_runs(path):
     return runs
 
 
+def split_by_key(lines):
+    """Per-key sub-histories of one run of single-key operations (linearizability is local: the run is
+    linearizable iff each of them is)."""
+    evs = [json.loads(x) for x in lines]
+    keys, by_client = [], {}
+    for e in evs:
+        if e["t"] == "inv":
+            k = json.dumps(e["op"].get("k"))
+            if k not in keys:
+                keys.append(k)
+    out = []
+    for k in keys:
+        sub, cur = [], {}
+        for e in evs:
+            if e["t"] == "reset":
+                sub.append(e)
+            elif e["t"] == "inv":
+                cur[e["c"]] = json.dumps(e["op"].get("k")) == k
+                if cur[e["c"]]:
+                    sub.append(e)
+            elif e["t"] == "res":
+                if cur.get(e["c"]):
+                    sub.append(e)
+            elif e["t"] == "final":
+                f = dict(e)
+                f["objs"] = [o for o in e.get("objs", []) if json.dumps(o.get("k")) == k]
+                sub.append(f)
+        out.append([json.dumps(x, separators=(",", ":")) + "\n" for x in sub])
+    return out
+
+
 def validate_conc(work, trace, witness=False, timeout=600):
     """Returns (verdict, at): verdict in accepted | rejected | inconclusive."""
     if witness:
+        # first the restricted search (effects only at the operation's own invocation or response): quick, and a
+        # witness it finds is a witness; then the full depth-first search
+        cfg = "TraceConc.e.cfg"
+        if not os.path.exists(work.path(cfg)):
+            write_cfg(work.path(cfg), {}, spec="SpecEdge", invariants=["NotDone"])
+        res = run_tlc(work, "TraceConc.tla", cfg, workers=1, timeout=min(timeout, 60), heap="2g",
+                      java_props=["-Dtlc2.tool.queue.IStateQueue=StateDeque"],
+                      env=dict(os.environ, TRACE=os.path.abspath(trace)))
+        if "Invariant NotDone is violated" in "\n".join(res.log):
+            return "accepted", None, res
         cfg = "TraceConc.w.cfg"
-        write_cfg(work.path(cfg), {}, invariants=["NotDone"])
-        os.environ["TRACE"] = os.path.abspath(trace)
-        res = run_tlc(work, "TraceConc.tla", cfg, workers=1, timeout=timeout,
-                      java_props=["-Dtlc2.tool.queue.IStateQueue=StateDeque"])
+        if not os.path.exists(work.path(cfg)):
+            write_cfg(work.path(cfg), {}, invariants=["NotDone"])
+        res = run_tlc(work, "TraceConc.tla", cfg, workers=1, timeout=timeout, heap="2g",
+                      java_props=["-Dtlc2.tool.queue.IStateQueue=StateDeque"],
+                      env=dict(os.environ, TRACE=os.path.abspath(trace)))
         text = "\n".join(res.log)
         if "Invariant NotDone is violated" in text:
             return "accepted", None, res
@@ -712,7 +754,7 @@ def build_server_binary():
 
 
 def conc_stage(rep, work, name, systems, clients, runs, ops, keys, gated, race=False, witness=False, timeout=900, seq=0,
-               kill_rounds=0, partrace=0):
+               kill_rounds=0, partrace=0, local=False):
     tag = re.sub(r"\W", "_", name)
     trace = work.path("conc.%s.ndjson" % tag)
     out = work.path("conc.%s.json" % tag)
@@ -720,6 +762,8 @@ def conc_stage(rep, work, name, systems, clients, runs, ops, keys, gated, race=F
     cmd = [binary, "conc", "--systems", ",".join(systems), "--seed", str(rep.seed), "--runs", str(runs),
            "--clients", ",".join(str(c) for c in clients), "--ops", str(ops), "--keys", str(keys),
            "--trace", trace, "--out", out, "--gated=%s" % ("true" if gated else "false"), "--partrace", str(partrace)]
+    if local:
+        cmd += ["--single-key-mix"]
     if seq:
         cmd += ["--seq", str(seq)]
     if kill_rounds:
@@ -767,8 +811,31 @@ def conc_stage(rep, work, name, systems, clients, runs, ops, keys, gated, race=F
     cur = trace
     rejected, inconclusive = [], 0
     vstates = vtrans = 0
+    if witness and os.path.exists(cur) and os.path.getsize(cur) > 0:
+        # many clients: first-witness (depth-first) search, one history at a time, several TLC processes side by side;
+        # a history without a witness inside the time limit is inconclusive, never a violation
+        from concurrent.futures import ThreadPoolExecutor
+        write_cfg(work.path("TraceConc.w.cfg"), {}, invariants=["NotDone"])
+        jobs = []
+        for i, (first, lines) in enumerate(split_runs(cur)):
+            # single-key operation mix: one sub-history per key (the run's verdict is the conjunction)
+            for j, part in enumerate(split_by_key(lines) if local else [lines]):
+                single = work.path("conc.%s.w%d_%d.ndjson" % (tag, i, j))
+                with open(single, "w") as f:
+                    f.writelines(part)
+                jobs.append((single, part))
+        with ThreadPoolExecutor(max_workers=6) as ex:
+            results = list(ex.map(lambda j: validate_conc(work, j[0], witness=True, timeout=min(timeout, 150)), jobs))
+        for (single, lines), (v, _, r2) in zip(jobs, results):
+            vstates += r2.distinct
+            vtrans += r2.generated
+            if v == "rejected":
+                rejected.append(lines)
+            elif v == "inconclusive":
+                inconclusive += 1
+        cur = None
     for attempt in range(8):
-        if not os.path.exists(cur) or os.path.getsize(cur) == 0:
+        if not cur or not os.path.exists(cur) or os.path.getsize(cur) == 0:
             break
         verdict, at, res = validate_conc(work, cur, witness=witness, timeout=timeout)
         vstates += res.distinct
